@@ -10,7 +10,7 @@ H = lambda s: (s if isinstance(s, bytes) else s.encode()).hex()
 
 TARGET_POOL = [b"ta:80", b"tb:80", b"tc:80", b"td:80", b"te:80", b"tf:80", b"tg:80", b"th:80", b"ti:80", b"tj:80",
                b"tk:80", b"tl:80", b"tm:80", b"tn:80", b"to:80", b"tp:80"]
-POINTS = ["req:routed", "req:gate-passed", "req:lb-picked", "req:claimed", "deploy:found", "deploy:healthy",
+POINTS = ["req:routed", "req:gate-passed", "req:lb-picked", "req:claimed", "deploy:found", "deploy:lb-created", "deploy:healthy",
           "deploy:slot-updated", "deploy:installed", "drain:marked", "probe:applied", "pause:gate-set"]
 # snapshot:* yields are NOT armed by the random generator: a goroutine parked there holds the snapshot mutex and a
 # second command would block on it (a sync.Mutex wait is not "durably blocked" for synctest); C12 has its own ops.
